@@ -38,6 +38,10 @@ type c14Case struct {
 	// PrevPass: before the judged attempt, the same user completes a genuine exchange with this OTHER
 	// password against the same salt and iteration count (a password that was rotated since).
 	PrevPass string `json:"prev_pass,omitempty"`
+	// SetBetween: the Client is created with STALE credentials (what the account had before), dials once
+	// (and is turned away), is then given the current ones through SetUsername/SetPassword and dials
+	// again: the second connection is judged with the current credentials and its own channel binding.
+	SetBetween bool `json:"set_between,omitempty"`
 }
 
 // c14NormPair reports whether (raw, normalised) is one of the hand-verified normalisation pairs.
@@ -134,9 +138,12 @@ func c14Run(c c14Case) []*core.Violation {
 			custom = smtp.ScramSHA1Auth(c.ClientUser, c.ClientPass)
 		}
 		opts = append(opts, mail.WithSMTPAuthCustom(custom))
+	} else if c.SetBetween {
+		opts = append(opts, mail.WithSMTPAuth(mail.SMTPAuthType(c.Mech)), mail.WithUsername(c.ClientUser+"-stale"), mail.WithPassword(c.ClientPass+"-stale"))
 	} else {
 		opts = append(opts, mail.WithSMTPAuth(mail.SMTPAuthType(c.Mech)), mail.WithUsername(c.ClientUser), mail.WithPassword(c.ClientPass))
 	}
+	setBetween := c.SetBetween && custom == nil
 	cl, err := mail.NewClient(refHost, opts...)
 	if err != nil {
 		return []*core.Violation{core.V("HARNESS-newclient", "%v", err)}
@@ -171,13 +178,22 @@ func c14Run(c c14Case) []*core.Violation {
 		}
 	}
 	attempts := 1
-	if c.Retry {
+	if c.Retry || setBetween {
 		attempts = 2
 	}
-	right := c.User == c.ClientUser && (c.Pass == c.ClientPass || c14NormPair(c.ClientPass, c.Pass))
+	rightNow := c.User == c.ClientUser && (c.Pass == c.ClientPass || c14NormPair(c.ClientPass, c.Pass))
 	var vs []*core.Violation
 	localRefusals := 0
 	for a := 0; a < attempts; a++ {
+		right := rightNow
+		if setBetween {
+			if a == 0 {
+				right = false // "<user>-stale" is never the account
+			} else {
+				cl.SetUsername(c.ClientUser)
+				cl.SetPassword(c.ClientPass)
+			}
+		}
 		var dialErr error
 		r := watchdog(20*time.Second, d, func() error {
 			dialErr = cl.DialWithContext(context.Background())
@@ -256,7 +272,11 @@ func c14Run(c c14Case) []*core.Violation {
 	// evidence
 	rec.AddExtra("local_refusals_precis", localRefusals)
 	rec.Class("mech:" + wire)
+	right := rightNow
 	rec.Class(fmt.Sprintf("right:%v", right))
+	if setBetween {
+		rec.Class("credentials-set-between-two-dials")
+	}
 	nonAlnum := func(s string) bool {
 		for _, r := range s {
 			if !(r >= 'a' && r <= 'z' || r >= 'A' && r <= 'Z' || r >= '0' && r <= '9') {
@@ -339,6 +359,7 @@ func c14Gen(t *rapid.T) c14Case {
 	if strings.HasPrefix(c.Mech, "SCRAM") && rapid.IntRange(0, 4).Draw(t, "rotated") == 0 {
 		c.PrevPass = c.Pass + "-old"
 	}
+	c.SetBetween = rapid.IntRange(0, 4).Draw(t, "setbetween") == 0
 	if c.Retry && rapid.Bool().Draw(t, "othersalt") {
 		c.Salt2 = rapid.SliceOfN(rapid.Byte(), 1, 32).Draw(t, "salt2")
 	}
@@ -348,7 +369,7 @@ func c14Gen(t *rapid.T) c14Case {
 func TestC14(t *testing.T) {
 	rec := core.Rec("C14")
 	rec.Rule = "the real Client (DialWithContext, STARTTLS over in-memory connections where TLS is needed) authenticates against reference servers written from RFC 4616 (PLAIN), draft-murchison (LOGIN), RFC 2195 (CRAM-MD5), Google's XOAUTH2 format and RFC 5802/7677/9266 (SCRAM-SHA-1/-256 and the PLUS variants with tls-unique on TLS 1.2 and tls-exporter on TLS 1.3 taken from the server's own side of the very connection; own PBKDF2; validated on the RFC 5802/7677/6070 vectors). " +
-		"rapid draws account and client credentials from fragments {ASCII, ',' '=' '=2C' '=3D' blanks, quotes, backslash, 'n=' 'r=' 'p=', Unicode letters that are fixed points of SASLprep and PRECIS, TAB/0x01/DEL, empty}, wrong-credential twins (other password, other user, near misses), salts of 1..64 bytes, iteration counts 1..20000, server nonce suffixes, extensions after i=, CRAM challenges, TLS none/1.2/1.3, a retry on the same smtp.Auth value for every mechanism (SCRAM optionally against another salt with the same iteration count), a preparatory exchange of the same user with a since-rotated password against the same salt, and hand-verified normalisation pairs (NFC composition, non-ASCII space) where the account holds the normalised password. " +
+		"rapid draws account and client credentials from fragments {ASCII, ',' '=' '=2C' '=3D' blanks, quotes, backslash, 'n=' 'r=' 'p=', Unicode letters that are fixed points of SASLprep and PRECIS, TAB/0x01/DEL, empty}, wrong-credential twins (other password, other user, near misses), salts of 1..64 bytes, iteration counts 1..20000, server nonce suffixes, extensions after i=, CRAM challenges, TLS none/1.2/1.3, a retry on the same smtp.Auth value for every mechanism (SCRAM optionally against another salt with the same iteration count), a preparatory exchange of the same user with a since-rotated password against the same salt, a Client created with stale credentials that dials, is turned away, is given the current credentials through SetUsername/SetPassword and dials again (incl. the PLUS variants, whose second connection has its own channel binding), and hand-verified normalisation pairs (NFC composition, non-ASCII space) where the account holds the normalised password. " +
 		"Oracle: verifier accepts <=> credentials are the account's; right credentials => dial succeeds; wrong => error; no message the verifier finds malformed; SCRAM client nonces pairwise distinct and >= 18 characters; PLUS uses the binding type that fits the TLS version. A local refusal of PRECIS-forbidden strings (control characters, empty) by SCRAM is a permitted third outcome, counted separately and never non-trivial. " +
 		"Non-trivial: credentials with a non-alphanumeric character, iterations > 1, or a PLUS mechanism. Distinct by (mechanism, TLS, credentials, salt length, iterations, suffix, extensions, challenge, retry)."
 	rec.Assumptions = []string{"Unicode credentials are restricted to fixed points of SASLprep and PRECIS OpaqueString (no independent normaliser is available offline)", "NUL is not generated (outside the property's quantifier), nor is ^A for XOAUTH2 (its field separator)"}
